@@ -1,25 +1,2 @@
-// ---- ArenaId for ClauseId and for the Literal stand-in: NonZeroU32 code Verus cannot see; contracts proved on
-// the real code by Kani (clause_id_roundtrip, lit_from_to_usize, lit_new_roundtrip; full domain, loop-free).
-impl ArenaId for ClauseId {
-    uninterp spec fn idx(self) -> nat;
-    open spec fn max_index() -> nat { (u32::MAX - 1) as nat }
-    proof fn lemma_max_index() {}
-    #[verifier::external_body]
-    fn from_usize(x: usize) -> (r: Self) { unimplemented!() }
-    #[verifier::external_body]
-    fn to_usize(self) -> (r: usize) { unimplemented!() }
-}
-pub broadcast proof fn axiom_clause_id_ext(a: ClauseId, b: ClauseId)
-    ensures #[trigger] a.idx() == #[trigger] b.idx() ==> a == b,
-{ admit(); }
-
-impl ArenaId for Literal {
-    /// Kani lit_new_roundtrip: to_usize == (variable << 1) | negate
-    open spec fn idx(self) -> nat { 2 * self.var() + (if self.neg() { 1nat } else { 0nat }) }
-    open spec fn max_index() -> nat { (u32::MAX - 1) as nat }
-    proof fn lemma_max_index() {}
-    #[verifier::external_body]
-    fn from_usize(x: usize) -> (r: Self) { unimplemented!() }
-    #[verifier::external_body]
-    fn to_usize(self) -> (r: usize) { unimplemented!() }
-}
+//@include prelude/clauseid_arena.rs
+//@include prelude/literal_arena.rs
